@@ -90,6 +90,11 @@ CLAIMED = {
    text="Generated include graphs (chains to depth 4, leaves in nested directories, equal base names with distinct content) with every file independently on disk, cache-only, in both with different content, zero bytes on disk, or missing, and include arguments spelled six ways, must render exactly like the template in which every include is replaced recursively by the content the statement selects; missing files, non-string arguments and errors inside included templates must fail the render without output.",
    note="Trusted: the harness's inliner (disk over cache). Nested includes are only issued from files in the top template's directory, where 'relative to the directory of the path' has one reading; variables assigned inside an included template are not probed afterwards. Temporary directories live under the run's scratch directory and are removed per case.",
    ref="DESIGN.md 7.C14"),
+ "C02": dict(
+   technique="property-based testing: identity relation over ~21 executions per generated case (entry points, re-parses, fresh engines, a fresh process, the command-line binary) with bindings re-realised in other insertion orders and at other addresses",
+   text="Each generated template (emphasis on maps of 2..12 entries consumed by for/tablerow/array filters/printing/json, pointer-bearing values, Drops, int- and mixed-keyed maps) is rendered about 21 times through every entry point, on fresh parses and engines and for a subset in a fresh process, every time against freshly built bindings with permuted map insertion order while older realisations stay alive; all results must be byte-identical. String-only environments are also run through the built cmd/liquid binary.",
+   note="With 8+ entries and 20 renders an order dependence escapes with probability < 1e-12; address dependence is exposed by re-realising bindings (a deterministic Go program gets the same addresses in every process). The date filter with 'now' and the time zone are not exercised (excepted by the statement). Four listed known findings (printing a struct/map with a nested pointer) have a dedicated sub-check so that listing them hides nothing else.",
+   ref="DESIGN.md 7.C02"),
 }
 
 REASON_PENDING = "check not built yet in this snapshot of /verif (planned: see DESIGN.md section 7); nothing is claimed for it"
